@@ -216,6 +216,25 @@ Fixpoint mon_c06 (inflight : list (N * N)) (ws : list wev) : bool :=
   | _ :: rest => mon_c06 inflight rest
   end.
 
+(* a retransmission reuses the identifier of the original: [sent] = operation -> packet id its PUBLISH was
+   last completely transmitted with in the current session; a DUP publish and the PUBREL of that
+   operation must carry the same identifier *)
+Fixpoint mon_c06_retx (sent : list (N * N)) (ws : list wev) : bool :=
+  match ws with
+  | [] => true
+  | WSent _ (Publish pb) (Some id) :: rest =>
+      if pub_qos pb =? 0 then mon_c06_retx sent rest
+      else (if pub_dup pb then match lookup id sent with Some pid => pid =? pub_pid pb | None => true end else true)
+           && mon_c06_retx (insert id (pub_pid pb) sent) rest
+  | WSent _ (Pubrel a) (Some id) :: rest =>
+      match lookup id sent with Some pid => pid =? ack_pid a | None => true end && mon_c06_retx sent rest
+  | WDone _ id _ :: rest => mon_c06_retx (filter (fun '(o, _) => negb (o =? id)) sent) rest
+  | WRecv _ (Connack c) :: rest =>
+      if (ca_rc c =? 0) && negb (ca_session_present c) then mon_c06_retx [] rest else mon_c06_retx sent rest
+  | WReset _ :: rest => mon_c06_retx [] rest
+  | _ :: rest => mon_c06_retx sent rest
+  end.
+
 (* ------------------------------------------------------------------ C07: handshake discipline *)
 (* phase: 0 = nothing sent yet on this connection, 1 = CONNECT sent, 2 = successful CONNACK
    processed, 3 = DISCONNECT sent, 4 = not connected *)
@@ -528,15 +547,61 @@ Fixpoint mon_c05_acks (alive : bool) (owing : list owed) (ws : list wev) : bool 
   | _ :: rest => mon_c05_acks alive owing rest
   end.
 
-(* QoS 2 exactly-once surfacing; QoS 0/1 surfaced each time, in wire order *)
-Fixpoint mon_c05_deliver (known : list N) (expect : list packet) (ws : list wev) : bool :=
+(* QoS 2 exactly-once surfacing; QoS 0/1 surfaced each time, in wire order.
+   [known]: QoS 2 packet ids received in the current session and not yet released by a PUBREL;
+   [unsure]: ids touched by a data call that returned an error (the engine may have processed any
+             prefix of that call's packets): not judged until the next PUBREL / session reset;
+   [expect]: publishes received by the current data call that must be surfaced, in wire order
+             (flag true = optional: surfacing it or not are both acceptable). *)
+Fixpoint obytes_eqb (a b : list N) : bool :=
+  match a, b with
+  | [], [] => true
+  | x :: a', y :: b' => (x =? y) && obytes_eqb a' b'
+  | _, _ => false
+  end.
+Definition same_message (a b : publish) : bool :=
+  (pub_qos a =? pub_qos b) && (pub_pid a =? pub_pid b) && Bool.eqb (pub_retain a) (pub_retain b) &&
+  match pub_payload a, pub_payload b with
+  | None, None => true
+  | Some x, Some y => obytes_eqb x y
+  | Some x, None => isnil x
+  | None, Some y => isnil y
+  end.
+Definition memN (x : N) (l : list N) : bool := existsb (fun y => y =? x) l.
+Definition dropN (x : N) (l : list N) : list N := filter (fun y => negb (y =? x)) l.
+(* consume the expectation a surfaced publish answers: optional ones in front of it may be skipped *)
+Fixpoint take_expected (p : publish) (expect : list (publish * bool)) : option (list (publish * bool)) :=
+  match expect with
+  | [] => None
+  | (q, optional) :: r =>
+      if same_message p q then Some r
+      else if optional then take_expected p r else None
+  end.
+Fixpoint mon_c05_deliver (known unsure : list N) (expect : list (publish * bool)) (ws : list wev) : bool :=
   match ws with
   | [] => true
-  | WReset _ :: rest => mon_c05_deliver [] [] rest
+  | WReset _ :: rest => mon_c05_deliver [] [] [] rest
   | WRecv _ (Connack c) :: rest =>
-      if (ca_rc c =? 0) && negb (ca_session_present c) then mon_c05_deliver [] [] rest else mon_c05_deliver known [] rest
-  | WRecv _ (Pubrel a) :: rest => mon_c05_deliver (filter (fun x => negb (x =? ack_pid a)) known) expect rest
-  | _ :: rest => mon_c05_deliver known expect rest
+      if (ca_rc c =? 0) && negb (ca_session_present c) then mon_c05_deliver [] [] expect rest
+      else mon_c05_deliver known unsure expect rest
+  | WRecv _ (Pubrel a) :: rest => mon_c05_deliver (dropN (ack_pid a) known) (dropN (ack_pid a) unsure) expect rest
+  | WRecvErr _ (Pubrel a) :: rest => mon_c05_deliver known (ack_pid a :: unsure) expect rest
+  | WRecv _ (Publish pb) :: rest =>
+      if pub_qos pb =? 2 then
+        if memN (pub_pid pb) unsure then mon_c05_deliver known unsure (expect ++ [(pb, true)]) rest
+        else if memN (pub_pid pb) known then mon_c05_deliver known unsure expect rest     (* duplicate: acknowledged, not surfaced *)
+        else mon_c05_deliver (pub_pid pb :: known) unsure (expect ++ [(pb, false)]) rest
+      else mon_c05_deliver known unsure (expect ++ [(pb, false)]) rest
+  | WRecvErr _ (Publish pb) :: rest =>
+      mon_c05_deliver known (if pub_qos pb =? 2 then pub_pid pb :: unsure else unsure) (expect ++ [(pb, true)]) rest
+  | WDeliver _ (Publish pb) :: rest =>
+      match take_expected pb expect with
+      | Some e' => mon_c05_deliver known unsure e' rest
+      | None => false           (* surfaced although not received, a second time, or out of order *)
+      end
+  | WCall _ _ _ _ :: rest =>
+      forallb (fun e => snd e) expect && mon_c05_deliver known unsure [] rest     (* every mandatory one was surfaced *)
+  | _ :: rest => mon_c05_deliver known unsure expect rest
   end.
 
 (* ------------------------------------------------------------------ all monitors, tagged *)
@@ -554,7 +619,9 @@ Definition all_monitors (cfg : config) (ws : list wev) : list (N * bool) :=
     (104, mon_tracked ws);
     (401, mon_c04 (mkC04 [] false) ws);
     (501, mon_c05_acks false [] ws);
+    (502, mon_c05_deliver [] [] [] ws);
     (601, mon_c06 [] ws);
+    (602, mon_c06_retx [] ws);
     (701, mon_c07 4 ws);
     (702, mon_c07_connected false ws);
     (801, mon_c08_wakeup ws);
